@@ -150,7 +150,7 @@ VerifySF(R, s) ==
 VerifyDH(R, P) ==
   /\ "verifydh" \in Ops /\ IsDir(disk, R)            \* also on a folder without history: nothing to compare, exit 0
   /\ LET r == TLCEval(VerifyDHResult(hist, disk, R, P))
-     IN ReadOnly([op |-> "verifydh", R |-> R, co |-> FALSE, h |-> "", P |-> P], [exit |-> r.exit, missing |-> {}, mismatch |-> r.baddirs, new |-> {}],
+     IN ReadOnly([op |-> "verifydh", R |-> R, co |-> FALSE, ro |-> FALSE, h |-> "", P |-> P], [exit |-> r.exit, missing |-> {}, mismatch |-> r.baddirs, new |-> {}],
                  EffPats(hist, R, P))
 
 \* flatten writes a packing list outside the tree; `flat` remembers what it holds and the tree it was made from
@@ -167,6 +167,7 @@ Flatten(R) ==
   /\ UNCHANGED <<disk, hist, sealed>>
 VerifyPL(R) ==
   /\ "verifypl" \in Ops /\ flat.src = R /\ IsDir(disk, R)
+  /\ DOMAIN flat.files # {}            \* a history that never recorded a file leaves no packing list behind
   /\ LET fl == [files |-> [p \in DOMAIN flat.files |-> flat.files[p]], pats |-> flat.pats]
          r == TLCEval(VerifyPLResult(disk, R, [files |-> [p \in {R \o q : q \in DOMAIN flat.files} |-> flat.files[Rel(R, p)]], pats |-> flat.pats]))
          o == [op |-> "verifypl", R |-> R]
@@ -213,11 +214,18 @@ HashCmd(s) ==
        /\ Log([op |-> "hash", S |-> s, h |-> f])
   /\ UNCHANGED <<disk, hist, sealed, flat>>
 
-\* verify -dh -co: only calculates and prints, never fails
+\* verify -dh -co: calculates and prints; recorded hashes in the calculated formats are still compared
 VerifyDHCO(R) ==
   /\ "verifydhco" \in Ops /\ IsDir(disk, R)
-  /\ ReadOnly([op |-> "verifydh", R |-> R, co |-> TRUE, h |-> ""], [exit |-> IF FALSE THEN 12 ELSE 0, missing |-> {}, mismatch |-> {}, new |-> {}],
-              EffPats(hist, R, <<>>))
+  /\ LET r == TLCEval(VerifyDHResultX(hist, disk, R, <<>>, "", TRUE, FALSE))
+     IN ReadOnly([op |-> "verifydh", R |-> R, co |-> TRUE, ro |-> FALSE, h |-> "", P |-> <<>>],
+                 [exit |-> r.exit, missing |-> {}, mismatch |-> r.baddirs, new |-> {}], EffPats(hist, R, <<>>))
+\* the option variants: one requested format, -co, -ro
+VerifyDHOpt(R, hf, co, ro) ==
+  /\ "verifydhopt" \in Ops /\ IsDir(disk, R) /\ (hf # "" \/ ro)
+  /\ LET r == TLCEval(VerifyDHResultX(hist, disk, R, <<>>, hf, co, ro))
+     IN ReadOnly([op |-> "verifydh", R |-> R, co |-> co, ro |-> ro, h |-> hf, P |-> <<>>],
+                 [exit |-> r.exit, missing |-> {}, mismatch |-> r.baddirs, new |-> {}], EffPats(hist, R, <<>>))
 
 Ack == last.op.op # "none" /\ last' = NoLast /\ UNCHANGED <<disk, hist, sealed, flat, behav>>
 
@@ -233,6 +241,7 @@ Next ==
         \/ \E R \in CmdRoots, P \in PatChoices : Verify(R, P) \/ Diff(R, P)
         \/ \E R \in CmdRoots, s \in FilePaths : VerifySF(R, s)
         \/ \E R \in CmdRoots : VerifyDHCO(R)
+        \/ \E R \in CmdRoots, hf \in {""} \cup SeqSet(Fmts), co, ro \in BOOLEAN : VerifyDHOpt(R, hf, co, ro)
         \/ \E R \in CmdRoots, P \in PatChoices : VerifyDH(R, P)
         \/ \E R \in CmdRoots : Flatten(R) \/ VerifyPL(R) \/ Info(R)
         \/ \E s \in FilePaths : InfoSF(s) \/ HashCmd(s)
@@ -282,8 +291,9 @@ Inv_C18_VerifyPL    == (Obs /\ last.op.op = "verifypl") => P_C18_VerifyPL(disk, 
 Inv_C19_Info        == (Obs /\ last.op.op = "info") => P_C19_Info(pre, disk, last.op, last.ob)
 Inv_C19_InfoSF      == (Obs /\ last.op.op = "infosf") => P_C19_InfoSF(pre, disk, last.op, last.ob)
 Inv_C14_Frame       == (Obs /\ last.op.op \notin {"create", "createsf"}) => hist = pre
+Inv_C14_Scope       == Obs => P_C14_Scope(pre, hist, disk, last.op, last.ign)
 Inv_C09_Identical   == (Obs /\ last.op.op = "verifydh") => P_C09_Identical(pre, disk, last.op, last.ob)
-Inv_C09_Detects     == (Obs /\ last.op.op = "verifydh" /\ UniformFormats(pre, disk, last.op.R)) => P_C09_Detects(pre, disk, last.op, last.ob)
+Inv_C09_Detects     == (Obs /\ last.op.op = "verifydh" /\ (last.op.h = "" => UniformFormats(pre, disk, last.op.R))) => P_C09_Detects(pre, disk, last.op, last.ob)
 Inv_C17_Renamed     == (Obs /\ last.op.op = "create") => P_C17_Renamed(pre, hist, disk, last.op, last.ob, last.ign)
 Inv_C17_Altered     == (Obs /\ last.op.op = "verify") => P_C17_Altered(pre, disk, last.op, last.ob, last.ign)
 Inv_NoInternal      == ~last.ob.internal
